@@ -476,6 +476,14 @@ PROPS["C04"] = {
                    "c08x::c08x_mandatory_and_optional_word_order", "c08x::c08x_external_and_local_traits_in_one_list",
                    "c04::c04_container_order_with_context_and_ret_tmp", "c04::c04_noncontiguous_cast_and_ret_tmp_order"],
          "rustflags": _LAYOUT_SEED_FLAGS, "timeout": 900},
+        {"id": "layout_seed_b",
+         "quick": ["c04::c04_vtbl_counter", "c04::c04_vtbl_reader_consume_gen", "c04::c04_group_words",
+                   "c04::c04_object_words_and_sizes", "c04::c04_vtbl_only_in_declaration_order",
+                   "c04::c04_group_alias_name_order", "c04::c04_object_with_context_words",
+                   "c04::c04_vtbl_provided_methods_have_slots", "c04::c04_overaligned_type_argument",
+                   "c08x::c08x_mandatory_and_optional_word_order", "c08x::c08x_external_and_local_traits_in_one_list",
+                   "c04::c04_container_order_with_context_and_ret_tmp", "c04::c04_noncontiguous_cast_and_ret_tmp_order"],
+         "rustflags": _LAYOUT_SEED_FLAGS.replace("layout-seed=", "layout-seed=20"), "timeout": 900},
     ],
     "negative": ["c04::c04_negative_twin"],
     "bounds": "raw words of 5 corpus vtables vs the per-name getters in declaration order (size == n words, entries distinct and "
